@@ -4,6 +4,7 @@ import (
 	"bufio"
 	"encoding/json"
 	"os"
+	"strconv"
 	"strings"
 )
 
@@ -59,4 +60,39 @@ func jsonStr(v interface{}) string {
 func jsonBool(v interface{}) bool {
 	b, _ := v.(bool)
 	return b
+}
+
+func jsonU64(v interface{}) uint64 {
+	switch x := v.(type) {
+	case json.Number:
+		u, err := strconv.ParseUint(x.String(), 10, 64)
+		if err != nil {
+			panic(err)
+		}
+		return u
+	case uint64:
+		return x
+	case int:
+		return uint64(x)
+	case int64:
+		return uint64(x)
+	case float64:
+		return uint64(x)
+	}
+	panic("jsonU64: not a number")
+}
+
+// norm round-trips a generated op through JSON so that apply() always sees decoded protocol values.
+func norm(op map[string]interface{}) map[string]interface{} {
+	b, err := json.Marshal(op)
+	if err != nil {
+		panic(err)
+	}
+	d := json.NewDecoder(strings.NewReader(string(b)))
+	d.UseNumber()
+	m := map[string]interface{}{}
+	if err := d.Decode(&m); err != nil {
+		panic(err)
+	}
+	return m
 }
